@@ -34,7 +34,7 @@ def run_demo(cwd, crate, features):
     # scpi-contrib's tests rely on workspace feature unification (alloc): run from the root without -p
     sel = f"-p {crate}" if crate == "scpi" else ""
     rc, out = sh(f"cargo test --offline {sel} {feat} --test demo 2>&1 | tail -30", cwd=cwd)
-    ok = "test result: ok" in out and "FAILED" not in out and "error[" not in out and "error:" not in out
+    ok = "test result: ok" in out and "FAILED" not in out and not re.search(r"^error(\[|:)", out, re.M)
     return ok, out[-1500:]
 
 def main():
